@@ -12,19 +12,22 @@ PEPS = ["AAK", "CCK", "DDR", "EEK", "FMR", "GGK", "HHR", "IIK"]
 PEP_VALUES = ["1/1048576", "1/8192", "1/256", "1/64", "1/4", "3/4"]
 
 
-def write_evidence(path, rows, silac):
+def write_evidence(path, rows, silac, tmt=0):
     cols = ["Sequence", "Modified sequence", "Leading proteins", "Leading razor protein", "PEP", "Score", "Experiment",
             "Charge", "Intensity", "Raw file", "Fraction", "id"]
     sil = {2: ["Intensity L", "Intensity H"], 3: ["Intensity L", "Intensity M", "Intensity H"]}.get(silac, [])
+    tm = []
+    for i in range(1, tmt + 1):
+        tm += [f"Reporter intensity corrected {i}", f"Reporter intensity {i}", f"Reporter intensity count {i}"]
     with open(path, "w", newline="") as f:
         w = csv.writer(f, delimiter="\t")
-        w.writerow(cols + sil)
+        w.writerow(cols + sil + tm)
         for r in rows:
             w.writerow([r["mod"].replace("(ox)", ""), "_" + r["mod"] + "_", ";".join(r["proteins"]),
                         r["proteins"][0] if r["proteins"] else "",
                         "NaN" if r["pep"] is None else repr(float(Fraction(r["pep"]))), "100", r["exp"], r["charge"],
                         {"nan": "NaN", "empty": ""}.get(r["intensity"], r["intensity"]), "raw_" + r["exp"], 1, r["id"]]
-                       + [str(x) for x in r["silac"][:silac]])
+                       + [str(x) for x in r["silac"][:silac]] + [str(x) for x in r.get("tmt", [])[:3 * tmt]])
 
 
 def fq(x):
@@ -46,7 +49,7 @@ class QuantSuite(Suite):
     rule = ("2-6 reported groups over <= 9 proteins (targets, decoys), 0-24 evidence rows over 1-3 experiments: proteins inside one "
             "group, spanning two groups (shared), partly or wholly unknown; PEPs on a dyadic grid incl. ties, match-between-runs rows "
             "(NaN PEP), the same (peptide, charge) identified in one row and not in another, modified forms; intensities multiples of 1024 "
-            "(float sums exact), NaN and empty intensity cells; label-free and SILAC 2 / 3 channels; proteins missing from the iBAQ table; "
+            "(float sums exact), NaN and empty intensity cells; label-free, SILAC 2 / 3 channels or TMT 1 / 2 channels; proteins missing from the iBAQ table; "
             "PSM-level FDR 0.01 / 0.05 / 1; non-trivial = a row discarded as shared or unknown, a precursor dropped by the identified filter, and >= 2 groups with precursors")
 
     def gen(self, rng, tier):
@@ -82,11 +85,16 @@ class QuantSuite(Suite):
                 rows.append({"mod": mod, "proteins": ps, "pep": None if mbr else rng.choice(PEP_VALUES), "charge": rng.choice([2, 2, 3]),
                              "exp": rng.choice(exps), "id": rng.choice([i, i, 100 - i]),
                              "intensity": "nan" if it < 0.04 else "empty" if it < 0.08 else repr(float(rng.randint(1, 4000) * 1024)),
-                             "silac": [repr(float(rng.randint(0, 900) * 512)) for _ in range(3)]})
+                             "silac": [repr(float(rng.randint(0, 900) * 512)) for _ in range(3)],
+                             "tmt": [repr(float(rng.randint(0, 300) * 256)) for _ in range(6)]})
             ibaq = {p: rng.choice([0, 1, 2, 3, 5, 7, 12]) for p in prots}
             if rng.random() < 0.04 and known:
                 del ibaq[rng.choice(known)]
-            yield {"groups": groups, "rows": rows, "ibaq": ibaq, "silac": silac, "fdr": rng.choice([0.01, 0.05, 0.05, 1.0])}
+            yield {"groups": groups, "rows": rows, "ibaq": ibaq, "silac": silac, "fdr": rng.choice([0.01, 0.05, 0.05, 1.0]),
+                   "tmt": self.tmt_choice(rng, silac)}
+
+    def tmt_choice(self, rng, silac):
+        return rng.choice([0, 0, 0, 1, 2]) if silac == 0 else 0
 
     def shrink(self, case):
         for i in range(len(case["rows"])):
@@ -107,7 +115,7 @@ class QuantSuite(Suite):
         from picked_group_fdr.writers.base import ProteinGroupsWriter
         d = tempfile.mkdtemp(prefix="c12_", dir=core.scratch())
         ev = os.path.join(d, "evidence.txt")
-        write_evidence(ev, case["rows"], case["silac"])
+        write_evidence(ev, case["rows"], case["silac"], case.get("tmt", 0))
         st = ProteinScoringStrategy("no_remap bestPEP")
         parsed = [list(t) for t in psm.parse_evidence_file_multiple([ev], peptide_to_protein_maps=[None], score_type=st,
                                                                     for_quantification=True)]
@@ -119,7 +127,7 @@ class QuantSuite(Suite):
         class W(ProteinGroupsWriter):
             def get_columns(self):
                 return [columns.UniquePeptideCountColumns(), columns.IdentificationTypeColumns(),
-                        columns.SummedIntensityAndIbaqColumns(ibaq, 0.01), columns.EvidenceIdsColumns()]
+                        columns.SummedIntensityAndIbaqColumns(ibaq, 0.01), columns.EvidenceIdsColumns(), columns.TMTIntensityColumns()]
         recorded = []
         levels = []
         real = fdr.calc_post_err_prob_cutoff
@@ -151,10 +159,18 @@ class QuantSuite(Suite):
         rows = []
         for (pe, pr, ch, raw, ex, fr, it, pp, tmt, sil, eid) in out["parsed"]:
             rows.append(cpair(cstr(pe), clist(cstr(p) for p in pr), cZ(ch), cstr(ex), copt(None if nan(it) else cQ(fq(it))),
-                              copt(None if nan(pp) else cQ(fq(pp))), clist(cQ(fq(float(x))) for x in sil), cZ(eid)))
+                              copt(None if nan(pp) else cQ(fq(pp))), clist(cQ(fq(float(x))) for x in sil),
+                              clist(cQ(fq(float(x))) for x in tmt), cZ(eid)))
         cuts = clist(cpair(clist(cQ(fq(x)) for x in k), cQ(fq(v))) for k, v in out["cutoffs"])
         cin = cpair(clist(cpair(cstr(k), cnat(v)) for k, v in case["ibaq"].items()), cuts, cnat(ns),
                     clist(clist(cstr(p) for p in g) for g in case["groups"]), clist(rows))
+        if getattr(self, "tmt_only", False):
+            # the TMT reporter cells of every written row (they follow the evidence ids)
+            if "raise" in out:
+                return cpair(cpair(cin, cnat(3 * case["tmt"])), copt(None))
+            E = len(out["experiments"])
+            off = 1 + 2 * E + 3 + 2 * E * (1 + ns) + 1
+            return cpair(cpair(cin, cnat(3 * case["tmt"])), copt(clist(clist(cQ(fq(float(v))) for v in x[off:]) for _, x in out["rows"])))
         if "raise" in out:
             return cpair(cin, craise(out["raise"]))
         E = len(out["experiments"])
@@ -181,7 +197,9 @@ class QuantSuite(Suite):
         if "rows" not in out or len(out["rows"]) < 2:
             return False
         n_att = sum(len(v) for v in out["attached"].values())
-        kept = sum(len([e for e in r[1][-1].split(";") if e]) for r in out["rows"])
+        E = len(out["experiments"])
+        ei = 1 + 2 * E + 3 + 2 * E * (1 + max(0, out.get("nsilac", 0)))         # position of the evidence ids (TMT cells follow)
+        kept = sum(len([e for e in str(r[1][ei]).split(";") if e]) for r in out["rows"])
         return n_att < len(out["parsed"]) and kept < n_att
 
     def describe(self, case, out):
@@ -193,7 +211,31 @@ class QuantSuite(Suite):
         return "quant-columns-model-mismatch"
 
 
-SUITES = [QuantSuite()]
+class TmtSuite(QuantSuite):
+    name = "tmt_reporter_columns"
+    case_type = "(c12_in * nat) * option (list (list Q))"
+    chk = "chk12t"
+    runf = None
+    tmt_only = True
+    rule = ("as quant_columns, label-free evidence with 1-2 TMT channels (three reporter columns each, values multiples of 256): the "
+            "reporter cells the TMT column generator appends to every row are compared with Model/Quant.v tmt_intensities")
+
+    def tmt_choice(self, rng, silac):
+        return rng.choice([1, 2])
+
+    def gen(self, rng, tier):
+        for c in QuantSuite.gen(self, rng, tier):
+            if c["silac"] == 0:
+                yield c
+
+    def render_in(self, case):
+        return None
+
+    def nontrivial(self, case, out):
+        return "rows" in out and len(out["rows"]) >= 2
+
+
+SUITES = [QuantSuite(), TmtSuite()]
 
 
 def suite_by_name(name):
